@@ -140,13 +140,16 @@ specs["C07"] = {"runs": [
     run(CMD + "balance:Harness_reports_agree", T, {"D": 2, "E": 2}, "real", owned=agree_owned, cover=["totals-read"]),
     run("cmd/hranoprovod-cli:Harness_app_period", QT, {"R": 2, "command": 0}, cover=["ran"], note="for every period: `register` under a period (global / sub-command / both) = register of the selected days"),
     run("cmd/hranoprovod-cli:Harness_app_period", QT, {"R": 2, "command": 7}, cover=["ran"], note="for every period: `report totals` under a period = totals of the selected days (so both agree under every period)"),
-    run("cmd/hranoprovod-cli:Harness_app_pipeline", QT, {'command': 1, 'posbook': 1, 'E': 1, 'shapes': 3}, "real", cover=["ran"], note="whole application on book and log text with symbolic values: `report totals` = the model's signed period totals (every relation of the property is decided against one model computed from the same symbolic values)"),
+    run("cmd/hranoprovod-cli:Harness_app_pipeline", QT, {'command': 1, 'posbook': 1, 'E': 1, 'shapes': 4}, "real", cover=["ran"], note="whole application on book and log text with symbolic values: `report totals` = the model's signed period totals (every relation of the property is decided against one model computed from the same symbolic values)"),
     run("cmd/hranoprovod-cli:Harness_app_pipeline", QT, {'command': 2}, "real", cover=["ran"], note='`balance -s x` grand total = period total of x (a recipe name that is also a category prefix of another)'),
     run("cmd/hranoprovod-cli:Harness_app_pipeline", QT, {'command': 5}, "real", cover=["ran"], note='`report element-total x` rows = resolved amounts (the rows of `csv database-resolved`, command 4 in C13)'),
     run("cmd/hranoprovod-cli:Harness_app_pipeline", QT, {'command': 6}, "real", cover=["ran"], note='`report quantity` = per-food sums over the period'),
     run("cmd/hranoprovod-cli:Harness_app_pipeline", QT, {'command': 7}, "real", cover=["ran"], note='`report unresolved` = exactly the logged foods the book does not define'),
     run("cmd/hranoprovod-cli:Harness_app_pipeline", QT, {'command': 11, 'posbook': 1, 'E': 1, 'shapes': 3}, "real", cover=["ran"], note="`register --totals-only` daily totals (default template, rendered) = the model's daily totals, whose sum is the period total"),
     run("cmd/hranoprovod-cli:Harness_app_pipeline", QT, {'command': 13, 'posbook': 1, 'E': 1, 'shapes': 3}, "real", cover=["ran"], note='`summary DATE` = the totals and foods of that day as the register shows them'),
+    run("cmd/hranoprovod-cli:Harness_app_pipeline", QT, {'command': 16, 'posbook': 1, 'E': 1, 'shapes': 3}, "real", cover=["ran"], note='`register -s x` rows (positive, minus negative, sum per day) = the daily contributions to x, which add up to the period total'),
+    run("cmd/hranoprovod-cli:Harness_app_pipeline", QT, {'command': 17, 'posbook': 1, 'E': 1, 'shapes': 3}, "real", cover=["ran"], note='`register -s x -g` rows = per-food contributions to x over the period'),
+    run("cmd/hranoprovod-cli:Harness_app_pipeline", QT, {'command': 18, 'posbook': 1, 'E': 1, 'shapes': 3}, "real", cover=["ran"], note='`register -f PATTERN` rows = the matching logged foods per day, merged'),
  ], "assumptions": [REAL, DATA],
  "outside_claim": ["stats day distances for symbolic dates (Time.Sub and Hours()/24 truncation: 64-bit multiplication by 10^9 is out of reach for the solvers; a concrete corpus is run instead)", "rendered digits"],
  "stubs": [FMT, BUFIO, CSVW, TIME]}
@@ -248,7 +251,7 @@ specs["C15"] = {"runs": [
     run(CMD + "reporter:Harness_day_item", Q, {"E": 2}, "real", owned=["foods-", "totals-", "food-", "total-", "ingredient-"], note="(Totals, TotalsOnly) in 2x2: what is shown is identical whenever shown"),
     run("cmd/hranoprovod-cli:Harness_app_pipeline", QT, {'command': 9, 'posbook': 1, 'E': 1, 'shapes': 3}, "real", cover=["ran"], note='whole application, `register` with the default template rendered: same records and numbers as the model'),
     run("cmd/hranoprovod-cli:Harness_app_pipeline", QT, {'command': 10, 'posbook': 1, 'E': 1, 'shapes': 3}, "real", cover=["ran"], note='`register --internal-template-name=left-aligned`: same records and numbers'),
-    run("cmd/hranoprovod-cli:Harness_app_pipeline", QT, {'command': 0, 'posbook': 1, 'E': 1, 'shapes': 3}, "real", cover=["ran"], note='`register --use-old-reg-reporter`: same records and numbers'),
+    run("cmd/hranoprovod-cli:Harness_app_pipeline", QT, {'command': 0, 'posbook': 1, 'E': 1, 'shapes': 4}, "real", cover=["ran"], note='`register --use-old-reg-reporter`: same records and numbers (book shapes include the empty recipe)'),
     run("cmd/hranoprovod-cli:Harness_app_pipeline", QT, {'command': 12, 'posbook': 1, 'E': 1, 'shapes': 3}, "real", cover=["ran"], note='`register --no-totals`: exactly the food part'),
     run("cmd/hranoprovod-cli:Harness_app_pipeline", QT, {'command': 11, 'posbook': 1, 'E': 1, 'shapes': 3}, "real", cover=["ran"], note='`register --totals-only`: exactly the totals part'),
     run("cmd/hranoprovod-cli:Harness_app_color", QT, {}, "fp", cover=["ran"], note="whole application: --no-color given globally or on the sub-command; coloured output minus escape codes = plain output; colour by sign (symbolic quantity) for four register variants"),
